@@ -42,7 +42,7 @@ VERIFICATION_FAILURES = [
     (r"could not prove termination", "decreases"),
     (r"index out of bounds|possible.*out of bounds", "bounds"),
     (r"possible bit shift underflow/overflow", "overflow"),
-    (r"unreachable|unwrap|expect", "panic"),
+    (r"\bunreachable\b|\bunwrap\b|\bexpect\(", "panic"),   # NOT "expected ..." (a parse error is no obligation)
     (r"failed to satisfy|cannot show|could not show", "other"),
     (r"recommendation not met", "recommends"),
 ]
